@@ -718,6 +718,27 @@ public:
     }
     F["params"] = std::move(Ps);
 
+    // local variables in declaration order (name, type): lets the engine undo a rename of locals
+    {
+      struct LocalCollector : public RecursiveASTVisitor<LocalCollector> {
+        std::vector<const VarDecl *> Vars;
+        bool VisitVarDecl(const VarDecl *V) {
+          if (!isa<ParmVarDecl>(V) && V->isLocalVarDecl())
+            Vars.push_back(V);
+          return true;
+        }
+      } LC;
+      LC.TraverseStmt(FD->getBody());
+      json::Array Ls;
+      for (const VarDecl *V : LC.Vars) {
+        json::Object LO;
+        LO["n"] = V->getName().str();
+        LO["t"] = typeStr(V->getType());
+        Ls.push_back(std::move(LO));
+      }
+      F["locals"] = std::move(Ls);
+    }
+
     CFG::BuildOptions BO;
     BO.setAllAlwaysAdd();
     BO.AddEHEdges = false;
